@@ -1,7 +1,9 @@
 (* C13/Corr.v -- correspondence cases.  Each carries the script the harness drove the real
    queryExecutor with (through /repo/verif_shim_c13.go) and what the implementation did: the event
    log (host iterator calls, execute calls with the consistency in force, attempt outcomes, Mark
-   calls, policy consultations with the attempt count they saw and their answers), the Iter that
+   calls, policy consultations with the attempt count they saw and their answers), how the query or
+   batch was marked idempotent (per-entry flags / cluster default and override: the model computes
+   IsIdempotent from them), the Iter that
    came back, and the query's attempt counter and consistency afterwards.  [check] runs the model
    on the same script and compares everything. *)
 From GocqlV Require Import Lib.Base Gen.Consts C13.Model.
@@ -82,13 +84,13 @@ Definition pc_result (c : pc) : option result := match c with PDone r => Some r 
 Inductive case :=
 (* one sequential execution: executeQuery with a non-idempotent query or without speculation
    (direct = false), or queryExecutor.do called directly (direct = true) *)
-| CSeq (direct : bool) (hosts : list host) (pd : pol_desc) (idem : bool) (spk : Z) (a0 cons0 : Z)
+| CSeq (direct : bool) (hosts : list host) (pd : pol_desc) (src : idem_src) (spk : Z) (a0 cons0 : Z)
        (outs : list (outcome * bool)) (dflt : outcome * bool)
        (tr : list event) (res : result) (att cns : Z)
 (* one speculative execution driven on a schedule the harness controlled: the label list is the
    order in which the harness let things happen; observed are every execution's event log and
    result, and what executeQuery returned *)
-| CSpec (hosts : list host) (pd : pol_desc) (spk : Z) (a0 cons0 : Z)
+| CSpec (hosts : list host) (pd : pol_desc) (src : idem_src) (spk : Z) (a0 cons0 : Z)
         (ls1 : list label) (ret : mres) (ls2 : list label)     (* steps seen before / after executeQuery returned ret *)
         (runs : list (list event * option result)) (att : Z)
 (* getExponentialTime(min, max, attempts) returned obs (jitter is random: bounds, with 1 ns of float slack) *)
@@ -130,18 +132,18 @@ Definition finish_main (p : option policy) (s : sstate) (ret : mres) : option ss
 
 Definition check (c : case) : bool :=
   match c with
-  | CSeq direct hosts pd idem spk a0 cons0 outs dflt tr res att cns =>
-      (direct || match exec_mode idem spk with MSequential => true | _ => false end)
+  | CSeq direct hosts pd src spk a0 cons0 outs dflt tr res att cns =>
+      (direct || match exec_mode (is_idempotent src) spk with MSequential => true | _ => false end)
       && match do_run seq_fuel (policy_of pd) (fun n => nth n outs dflt) (sh0 hosts a0 cons0) run0 with
          | Some (sh, r) =>
              list_eqb event_eqb (r_tr r) tr && opt_eqb result_eqb (pc_result (r_pc r)) (Some res)
              && (s_att sh =? att) && (s_cons sh =? cns)
          | None => false
          end
-  | CSpec hosts pd spk a0 cons0 ls1 ret ls2 runs att =>
-      match exec_mode true spk with
+  | CSpec hosts pd src spk a0 cons0 ls1 ret ls2 runs att =>
+      match exec_mode (is_idempotent src) spk with
       | MSpeculative _ =>
-          match run_lts (policy_of pd) (init true spk (sh0 hosts a0 cons0)) ls1 with
+          match run_lts (policy_of pd) (init (is_idempotent src) spk (sh0 hosts a0 cons0)) ls1 with
           | Some s1 =>
               match finish_main (policy_of pd) s1 ret with
               | Some s2 =>
